@@ -654,3 +654,49 @@ class Lifecycle(Spec):
 
     def at_end(self, st, how):
         return None
+
+
+
+def env_ctors(fx):
+    """the birth site of an actor and what merely forwards to it: (primary, {def: index of the Channel argument}).
+    The primary is the crate function that writes the `Environment` struct literal from a `Channel<A>` it is given
+    (`Environment::from_channel` on the pinned tree, whatever it is called); a function of the same type that takes a
+    `Channel<A>` and hands it on to the primary (`from_channel(c)` = `from_channel_with_config(c, Default::default())`) is
+    a forwarder"""
+    if getattr(fx, "_env_ctors", None) is not None:
+        return fx._env_ctors
+    from mir import Body, agg_sites
+    ENV = "environment::Environment"
+    prim = []
+    for f in fx.d["fns"]:
+        if f["kind"] not in ("fn", "assoc_fn"):
+            continue
+        ins = f.get("inputs") or []
+        ch = [i for i, t in enumerate(ins) if t.startswith("channel::Channel<")]
+        if len(ch) != 1 or not (f.get("output") or "").startswith(ENV + "<"):
+            continue
+        b = Body(f)
+        if any(True for _ in agg_sites(b, adt=ENV)):
+            prim.append((f, ch[0]))
+    out = {}
+    primary = None
+    if len(prim) == 1:
+        primary = prim[0][0]
+        out[primary["def"]] = prim[0][1]
+        changed = True
+        while changed:
+            changed = False
+            for f in fx.d["fns"]:
+                if f["def"] in out or f["kind"] not in ("fn", "assoc_fn"):
+                    continue
+                ins = f.get("inputs") or []
+                ch = [i for i, t in enumerate(ins) if t.startswith("channel::Channel<")]
+                if len(ch) != 1 or not (f.get("output") or "").startswith(ENV + "<"):
+                    continue
+                b = Body(f)
+                calls = [t for _bi, t in b.normal_calls() if (t.get("callee") in out)]
+                if len(calls) == 1:
+                    out[f["def"]] = ch[0]
+                    changed = True
+    fx._env_ctors = (primary, out)
+    return fx._env_ctors
